@@ -476,7 +476,19 @@ func (e *Env) binary(x *SExpr) Val {
 	a, b = e.unify(a, b)
 	switch x.Op {
 	case "==", "!=":
-		if a.Loc != nil || b.Loc != nil {
+		if (a.Loc != nil && a.T == "") || (b.Loc != nil && b.T == "") {
+			// an interior address compared with nil: it is nil only if its base object is
+			la, other := a, b
+			if !(a.Loc != nil && a.T == "") {
+				la, other = b, a
+			}
+			if (other.T == "0" || other.T == "nil") && la.Loc.Ref != "" {
+				t := fmt.Sprintf("(= %s 0)", la.Loc.Ref)
+				if x.Op == "!=" {
+					t = "(not " + t + ")"
+				}
+				return boolVal(t)
+			}
 			e.fail(x, "comparison of interior addresses")
 		}
 		// slice compared with nil
